@@ -9,14 +9,17 @@ structure PCase where
   sort : Bool
   filterEcu : Int
   tail : Int
+  restarting : Bool
+  caps : List Nat
   ms : List Msg
 
 def parsePCase (s : String) : PCase :=
   match s.splitOn "|" with
-  | [_, _, _, o, m] =>
+  | [cp, _, _, o, m] =>
     let os := (fields o " ").map int!
-    { drop := os.getD 0 (-1), sort := os.getD 1 0 == 1, filterEcu := os.getD 2 (-1), tail := os.getD 3 0, ms := Lcm.parseCase m.trimAscii.toString }
-  | _ => { drop := -1, sort := false, filterEcu := -1, tail := 0, ms := [] }
+    { drop := os.getD 0 (-1), sort := os.getD 1 0 == 1, filterEcu := os.getD 2 (-1), tail := os.getD 3 0, restarting := os.getD 4 0 == 1,
+      caps := nats cp " ", ms := Lcm.parseCase m.trimAscii.toString }
+  | _ => { drop := -1, sort := false, filterEcu := -1, tail := 0, restarting := false, caps := [], ms := [] }
 
 /-- the sequential composition: lifecycle detection, (no plugins), [sort: compared as a set], positive ECU filter -/
 def sequential (c : PCase) : String :=
@@ -44,10 +47,17 @@ def doLine (line : String) : String :=
   let tailMsgs : List Msg :=
     let lastTs := match (c.ms.filter (·.ecu == 0)).getLast? with | some x => x.tsDms | none => 0
     let baseRecv := c.ms.foldl (fun a x => max a x.recv) (match (c.ms.filter (·.ecu == 0)).getLast? with | some x => x.recv | none => 1700000000000000)
-    (List.range 250).map fun k =>
-      { index := c.ms.length + k, recv := baseRecv + (k + 1) * 1000000, ecu := 0, tsDms := min (lastTs + (k + 1) * 10000) 4294967295,
+    ((List.range 250).filter fun k => !(c.restarting && k % 30 > 25)).map fun k =>
+      { index := c.ms.length + k, recv := baseRecv + (k + 1) * 1000000, ecu := 0,
+        tsDms := if c.restarting then (min (k % 30) 25) * 10000 else min (lastTs + (k + 1) * 10000) 4294967295,
         hasTs := true, ctrlReq := false }
-  let live := c.tail > 0 && ((c.ms ++ tailMsgs).foldl Lcm.St.step {}).bufLcs.isEmpty
+  -- a restarting source keeps a lifecycle under observation: the detector meets the closed channel when a confirmation releases
+  -- queued messages. A failed send travels upstream one stage per message: demanded when, during the first 250 tail messages,
+  -- the model delivers more messages than the channels behind the detector hold plus one per stage
+  let sBefore := c.ms.foldl Lcm.St.step {}
+  let sAfter := tailMsgs.foldl Lcm.St.step sBefore
+  let room := ((c.caps.drop 1).foldl (· + ·) 0) + 6
+  let live := c.tail > 0 && (if c.restarting then decide (sAfter.out.length ≥ sBefore.out.length + room) else sAfter.bufLcs.isEmpty)
   let mobs := s!"B {m} # U {m} # term=1 # perr={if live then "1" else "-"}"
   let parts := impl.splitOn " # "
   let (b, u, t, pe) := match parts with
@@ -69,7 +79,7 @@ def doLine (line : String) : String :=
   let pe' := if live then pe else "perr=-"
   let canon := if dropped && (c.sort || isPrefix) && t == "term=1" then s!"B {u} # U {u} # term=1 # {pe'}" else impl
   let tags : List String :=
-    (if dropped then ["consumer-lost"] else []) ++ (if live then ["live-source"] else if c.tail > 0 then ["live-source-undecided"] else []) ++ (if c.sort then ["sorted"] else []) ++
+    (if dropped then ["consumer-lost"] else []) ++ (if live then ["live-source"] else if c.tail > 0 then ["live-source-undecided"] else []) ++ (if c.restarting then ["restarting-source"] else []) ++ (if c.sort then ["sorted"] else []) ++
     (if c.filterEcu ≥ 0 then ["filtered"] else []) ++
     (if ((cs.splitOn "|").headD "").splitOn " " |>.any (· == "0") then ["rendezvous"] else []) ++
     (if (fields ((cs.splitOn "|").headD "") " ").any (fun x => x == "1" || x == "2") then ["tiny-capacity"] else [])
